@@ -970,6 +970,25 @@ func init() {
 			mustValid(v, "Bytes")
 			return v.get()
 		},
+		"OverflowInt": func(st *State, c *frame, f *ssa.Function, a []Value) Value {
+			v := rv(a)
+			if !isIntKind(rvKind(v)) {
+				reflectPanic("reflect: OverflowInt of non-int type " + rtypeString(v.T))
+			}
+			w := basicWidth(v.T.Underlying().(*types.Basic))
+			x := a[1].(*Term)
+			// x != signExtend(truncate(x, w))
+			return Not(Eq(x, Resize(Resize(x, w, true), 64, true)))
+		},
+		"OverflowUint": func(st *State, c *frame, f *ssa.Function, a []Value) Value {
+			v := rv(a)
+			if !isUintKind(rvKind(v)) {
+				reflectPanic("reflect: OverflowUint of non-uint type " + rtypeString(v.T))
+			}
+			w := basicWidth(v.T.Underlying().(*types.Basic))
+			x := a[1].(*Term)
+			return Not(Eq(x, Resize(Resize(x, w, false), 64, false)))
+		},
 		"SetInt": setScalar(isIntKind, "SetInt", func(st *State, d RValue, x Value) Value {
 			return Resize(x.(*Term), basicWidth(d.T.Underlying().(*types.Basic)), true)
 		}),
